@@ -209,7 +209,7 @@ class EinSum(Module):
             ind_out = self.indices_in[ar]
 
             op = ",".join(ind_in)+"->"+ind_out
-            if not np.iscomplexobj(self.sig_in[ar].state) and np.any(arg_complex) and np.iscomplexobj(df_in):
+            if not np.iscomplexobj(self.sig_in[ar].state) and (np.any(arg_complex) or np.iscomplexobj(df_in)):
                 da_i = np.zeros_like(self.sig_in[ar].state)+0j
                 einsum(op, df_in, *arg_in, out=da_i, optimize=True)
                 da_i = da_i.real
